@@ -25,7 +25,7 @@ CONSTANTS CNodes,     \* cluster node ids (= origin ids, a subset of Nodes)
           MaxExch,    \* bound on the number of repair exchanges started
           WithBatch, WithBulk, WithRestart, WithPurge,
           MaxSkew,
-          EmitTrace
+          EmitTrace, MinOpsToEmit
 
 VARIABLES node,    \* n -> [st, store]
           clk,     \* n -> largest time the node's clock has issued or received
@@ -254,7 +254,8 @@ C02_Agree == \A n \in CNodes : ActAgree(node[n])
 \* used to show that the antecedent of C01 is reachable (expected to be violated)
 NeverConverged == ~(Converged /\ ops # {})
 
-Emit == IF EmitTrace /\ Converged /\ ops # {}
-        THEN PrintT(<<"BEHAVIOUR", ToJson([hist |-> hist, ops |-> ops, expect |-> LWWLive(ops)])>>)
+\* (a CONSTRAINT: returning FALSE ends the simulated trace once a converged state has been emitted)
+Emit == IF EmitTrace /\ Converged /\ ops # {} /\ Cardinality(ops) >= MinOpsToEmit
+        THEN PrintT(<<"BEHAVIOUR", ToJson([hist |-> hist, ops |-> ops, expect |-> LWWLive(ops)])>>) /\ FALSE
         ELSE TRUE
 =============================================================================
